@@ -1,8 +1,10 @@
 (* Bridging lemma (DESIGN 2.6, second tie) for Wire.put: the body as translated from the tree under test on every run
    (Gen/Extracted_wire.v) is the WPut step of the hand-written automaton (Elem/Wire.v) the C10 theorems are about:
-   packets_rec += 1, packet.current_time = now, THEN store.put(packet).  The model files a packet in the store under
-   the instant of its put, which is what run() later reads back as packet.current_time: the meaning of store.put
-   below files the packet under the current_time the body has just written (no stamp before the put: no meaning). *)
+   packets_rec += 1, packet.current_time = now, THEN store.put((now, packet)).  The model files a packet in the store
+   under the instant of its put; since the fix 965d42d the code does the same: the entry instant travels with the queued
+   entry (run() reads entry[0], not packet.current_time, which is one field per Packet object and is overwritten when the
+   same object enters a wire again).  The meaning of store.put below files the packet under the instant the effect
+   carries; the per-object stamp is still remembered (the body must still write it, for compatibility). *)
 From Coq Require Import ZArith QArith List Bool.
 From ONL Require Import Elem.Packet Elem.StoreQ Elem.Wire Gen.Extracted_wire.
 Import ListNotations.
@@ -10,8 +12,8 @@ Import ListNotations.
 Definition wire_fx_apply (p : pkt) (acc : option (wire * option Q)) (e : wire_fx) : option (wire * option Q) :=
   match acc, e with
   | Some (w, _), FxStampCurrent t => Some (w, Some t)
-  | Some (w, Some t), FxStorePut =>
-      Some ({| wnow := wnow w; wq := sq_put fifo_push t p (wq w); started := started w; hold := hold w; nrec := nrec w |}, Some t)
+  | Some (w, st), FxStorePut t =>
+      Some ({| wnow := wnow w; wq := sq_put fifo_push t p (wq w); started := started w; hold := hold w; nrec := nrec w |}, st)
   | _, _ => None
   end.
 
@@ -25,7 +27,7 @@ Lemma bridge_wire_put loss dbg w p :
   let g := wire_gen_put dbg w in
   exists w', fold_left (wire_fx_apply p) (snd g) (Some (wire_with_fields w (fst g), None)) = Some (w', Some (wnow w)) /\
              wire_act loss w (WPut p) = Some (w', []) /\
-             snd g = [FxStampCurrent (wnow w); FxStorePut].
+             snd g = [FxStampCurrent (wnow w); FxStorePut (wnow w)].
 Proof.
   unfold wire_gen_put, gen_Wire_put, wire_with_fields; destruct dbg; cbn -[Z.add]; rewrite ?(Z.add_comm 1);
     eexists; repeat split; reflexivity.
